@@ -28,11 +28,11 @@ LEVEL_RULE = (
 ASSUMPTIONS = [
     "default radial scheme and Becke partition (custom radi_method / becke_scheme not enumerated)",
     "density used for pruning is the superposition of s-type Gaussians on the atoms scaled to the electron count (any density is admissible for the property)",
-    "lmax values {4, 6, 10}; the harness passes full_lmax explicitly (the constructor default only supports lmax = 10, which is a rejection not a wrong grid)",
+    "lmax values {4, 6, 10, 12}; the harness passes full_lmax explicitly (the constructor default only supports lmax = 10, which is a rejection not a wrong grid)",
 ]
 DEPTH = 3
 MOLS = ["He", "LiH", "H2O", "OH", "HOH", "HSH"]
-LMAXS = [4, 6, 10]
+LMAXS = [4, 6, 10, 12]  # 12: above the package default, where shells of 170-302 points are the ones to be truncated
 OPS = [
     "build", "build:nosort", "build:non0", "prune:1e-12", "prune:1e-6", "prune:1e-2", "prune:0", "reset",
     "set:level1", "set:grid15x26", "set:grid20x50", "set:grid-elem", "set:prune-none", "set:prune-nwchem", "set:align1", "set:align8",
@@ -43,7 +43,7 @@ def initial_cases(tier, seed):
     cases = []
     mols = MOLS if tier == "quick" else MOLS + ["NH3", "HF"]
     for m, l in itertools.product(mols, LMAXS):
-        if tier == "quick" and l == 10 and m not in ("He", "H2O"):
+        if tier == "quick" and l >= 10 and m not in ("He", "H2O"):
             continue
         cases.append({"mol": m, "lmax": l, "hist": [], "seed": seed})
     return cases
